@@ -17,7 +17,7 @@ RULE = ("tables with 2-4 retained snapshots, aged orphans, one open transaction 
         "collection with grace 0 or 1 h (then with a just-written, marker-less staged file that only its age protects) executed once fault-free to enumerate its storage calls, then re-executed from a "
         "restored copy with one untrusted input: (a) an exception at storage call k (local OSError; S3 transient "
         "burst beyond the retry budget, or permanent AccessDenied), (b) one reachable metadata-plane file (current "
-        "metadata file, each manifest list, each manifest) made missing / truncated / replaced by noise, each "
+        "metadata file, each manifest list, each manifest) made missing / truncated / replaced by noise or by the JSON document {}, each "
         "checked unparseable by the independent reader first, (c) a listing that returns an escaping path at the "
         "start / middle / end, (d) a marker that is unreadable / un-stat-able / undeletable (subsumed by (a) on "
         "marker calls). quick samples, thorough sweeps every k and every file. One evaluation = one (table, fault). "
@@ -158,7 +158,7 @@ def execute(plan: dict, scratch: str, replay: Optional[dict] = None) -> dict:
             cand = [["err", s[1]] for s in gsteps if s[3] not in ("list_result", "disk_usage")]
         elif mode == "damage":
             files = [f"metadata/{truth['state'].pointer}"] + sorted(truth["reach"]["lists"]) + sorted(truth["reach"]["manifests"])
-            cand = [["damage", f, how] for f in files for how in ("missing", "truncate", "noise", "half")]
+            cand = [["damage", f, how] for f in files for how in ("missing", "truncate", "noise", "half", "json_empty")]
         else:
             cand = [["listing", s[1], pos, ent] for s in gsteps if s[3] == "list_result"
                     for pos in ("start", "mid", "end")
@@ -195,6 +195,8 @@ def _damage(w: world.World, rel: str, how: str) -> bool:
         new = data[: max(1, min(len(data) - 1, 7))]
     elif how == "half":
         new = data[: len(data) // 2]
+    elif how == "json_empty":
+        new = b"{}"      # well-formed JSON, but not a metadata file / manifest list / manifest
     else:
         new = bytes((b * 131 + 17) % 256 for b in data[:64]) * 2
     if w.backend == "local":
